@@ -3,6 +3,7 @@
 # Confirms a seeded change (demo fails with it, passes without; baseline tests of <pkgs> still pass),
 # stores it under /verif/seeded/<name>/ and runs the property check against it on /repo (applied, then undone).
 set -u
+SEED_TESTFLAGS=${SEED_TESTFLAGS:-}
 export GOFLAGS=-mod=mod GOPROXY=off GOSUMDB=off GOTOOLCHAIN=local
 prop=$1; wt=$2; name=$3; shift 3; pkgs="$@"
 S=$wt/_seed
@@ -13,14 +14,14 @@ echo "demo dir: $demodir"
 cd $wt
 go build ./... || { echo "BUILD FAILS"; exit 1; }
 echo "--- demo WITH change (must fail)"
-go test -vet=off -count=1 -run 'Seed|seed' ./$demodir/ 2>&1 | tail -3
+go test $SEED_TESTFLAGS -vet=off -count=1 -run 'Seed|seed' ./$demodir/ 2>&1 | tail -3
 git apply -R $S/patch.diff || { echo "cannot revert patch"; exit 1; }
 echo "--- demo WITHOUT change (must pass)"
-go test -vet=off -count=1 -run 'Seed|seed' ./$demodir/ 2>&1 | tail -3
+go test $SEED_TESTFLAGS -vet=off -count=1 -run 'Seed|seed' ./$demodir/ 2>&1 | tail -3
 git apply $S/patch.diff
 echo "--- baseline tests with change"
 mv $wt/$demodir/zz_seed_demo_test.go /tmp/zz_seed_demo_test.go.$$
-go test -json -vet=off -count=1 $pkgs 2>/dev/null | python3 -c "
+go test $SEED_TESTFLAGS -json -vet=off -count=1 $pkgs 2>/dev/null | python3 -c "
 import sys,json
 ok=set()
 for l in sys.stdin:
